@@ -290,3 +290,246 @@ def special_C28(seed, tier, model, deadline):
     return {'failures': fails, 'mismatches': [],
             'coverage': {'determinism_programs': len(progs), 'interpreter_processes': runs, 'hash_seeds': hashseeds,
                          'static_scan_files': len(_glob.glob(os.path.join(src, '*.py'))), 'static_scan_hits': len(hits)}}
+
+
+def _judge(pid, ops, key, seed, model, oracle, fails, mism):
+    """run one directed history on the real library (and the model), compare under the projection of `pid`, apply the oracle"""
+    from corr import replay
+    import checklib as L
+    r = replay(ops, model)
+    if model is not None:
+        for idx, (op, ol, ml, obs) in enumerate(r.log):
+            if ml is not None and obs is not None and not r.unmodelled_at(idx) and L.project(pid, ol) != L.project(pid, ml):
+                mism.append({'seed': seed, 'k': key, 'idx': idx, 'ops': ops[:idx + 1]})
+                break
+    fs = oracle(r) if oracle else []
+    if fs:
+        f = min(fs, key=lambda x: x['idx'])
+        fails.append({'seed': seed, 'k': key, 'failure': f, 'ops': ops[:f['idx'] + 1]})
+    return r
+
+
+def special_C29(seed, tier, model, deadline):
+    """state zoo x call matrix: one connection fed hand-made frames is driven into unusual states (streams open, half
+    closed either way, reserved either way, reset by either side, ended, forgotten; stream windows zero or negative after
+    the peer lowered INITIAL_WINDOW_SIZE; MAX_FRAME_SIZE raised and lowered again while streams exist; concurrency limit
+    0; GOAWAY received or sent; connection closed by an error) and then every public call is tried with boundary
+    arguments on known, forgotten, never-used and nonsensical stream ids."""
+    import random
+    import time
+    import wire
+    from oracles import oracle_C29
+    REQ = [(b':method', b'GET', False), (b':scheme', b'https', False), (b':path', b'/', False), (b':authority', b'x', False)]
+    POST = [(b':method', b'POST', False), (b':scheme', b'https', False), (b':path', b'/', False), (b':authority', b'x', False)]
+    RESP = [(b':status', b'200', False)]
+    INFO = [(b':status', b'100', False)]
+    TRAIL = [(b'x-trailer', b'1', False)]
+    blk = wire.hpack_literal_block
+    n = {'quick': 300, 'thorough': 6000}.get(tier, 300)
+    fails, mism, progs, nops = [], [], 0, 0
+    kinds = {}
+    for k in range(n):
+        if time.time() > deadline:
+            break
+        rng = random.Random((seed * 77003 + k) & 0xFFFFFFFF)
+        client = rng.random() < 0.5
+        ops = [{'op': 'new', 'c': 0, 'client': client, 'vo': 1, 'no': 1, 'vi': 1, 'ni': 1, 'enc': None}]
+        pre = rng.random()
+        if pre < 0.08:
+            pass                                                   # no initiate_connection at all
+        elif pre < 0.16 and not client:
+            ops.append({'op': 'initiate_upgrade', 'c': 0, 'settings_header': rng.choice([b'', b'AAEAAAAA', b'AAQAAAAA', b'AAUAAEAB'])})
+        elif pre < 0.2 and client:
+            ops.append({'op': 'initiate_upgrade', 'c': 0, 'settings_header': None})
+        else:
+            ops.append({'op': 'initiate_connection', 'c': 0})
+            if rng.random() < 0.9:
+                ops.append({'op': 'recv', 'c': 0, 'data': (b'' if client else wire.PREFACE) + wire.settings_frame([]) + wire.settings_frame(ack=True)})
+        mine = 1 if client else 2
+        theirs = 2 if client else 1
+        known = []                                                # ids that exist or existed
+        big = rng.choice([0, 0, 17000, 40000])
+
+        def recv(data):
+            ops.append({'op': 'recv', 'c': 0, 'data': data})
+
+        recipe = rng.random() < 0.6
+        if recipe:
+            # ordered phases: open streams (requests, responses, pushes) -> move data -> the peer changes its settings
+            # (first up, then down) -> some streams end; the probes then hit streams that outlived the change
+            theme = rng.choice(['frame', 'window', 'mixed'])
+            ups = {'frame': [(5, 32768), (5, 65536), (5, 2**24 - 1)], 'window': [(4, 100000), (4, 2**31 - 1), (4, 65535)],
+                   'mixed': [(5, 32768), (4, 100000), (1, 65536), (3, 5)]}[theme]
+            downs = {'frame': [(5, 16384), (5, 16384), (5, 20000)], 'window': [(4, 0), (4, 1), (4, 50), (4, 999)],
+                     'mixed': [(4, 0), (5, 16384), (3, 0), (1, 0), (2, 0), (4, 999)]}[theme]
+            if rng.random() < 0.8:
+                recv(wire.settings_frame([rng.choice(ups)]))
+            for _ in range(rng.randrange(1, 4)):
+                if client:
+                    ops.append({'op': 'send_headers', 'c': 0, 'sid': mine, 'headers': POST, 'es': False})
+                    known.append(mine)
+                    mine += 2
+                else:
+                    recv(wire.headers_frames(theirs, blk(POST), end_stream=rng.random() < 0.3))
+                    known.append(theirs)
+                    theirs += 2
+                    if rng.random() < 0.7:
+                        ops.append({'op': 'send_headers', 'c': 0, 'sid': known[-1], 'headers': RESP, 'es': False})
+                    if rng.random() < 0.6:
+                        ops.append({'op': 'push_stream', 'c': 0, 'sid': known[-1], 'promised': mine, 'headers': REQ})
+                        known.append(mine)
+                        mine += 2
+            pushed = [x for x in known if (x % 2 == 0) != client and not client]
+            for sid in list(known):
+                if sid not in pushed and rng.random() < 0.7:
+                    ops.append({'op': 'send_data', 'c': 0, 'sid': sid, 'data': b'x' * rng.choice([1, 100, 1000, 16384]), 'es': False})
+            for _ in range(rng.randrange(1, 3)):
+                recv(wire.settings_frame([rng.choice(downs)]))
+            for sid in list(known):
+                r = rng.random()
+                if r < 0.15:
+                    ops.append({'op': 'reset_stream', 'c': 0, 'sid': sid, 'code': 8})
+                elif r < 0.3:
+                    recv(wire.rst_stream(sid, 8))
+                elif r < 0.4:
+                    ops.append({'op': 'end_stream', 'c': 0, 'sid': sid})
+            if rng.random() < 0.3:
+                ops.append({'op': 'q', 'c': 0, 'what': 'open_out'})
+            if big == 0 and rng.random() < 0.7:
+                big = rng.choice([17000, 40000])
+        for _ in range(0 if recipe else rng.randrange(2, 12)):
+            r = rng.random()
+            if r < 0.18:
+                if client:
+                    ops.append({'op': 'send_headers', 'c': 0, 'sid': mine, 'headers': rng.choice([REQ, POST]), 'es': rng.random() < 0.3})
+                    known.append(mine)
+                    mine += 2
+                else:
+                    recv(wire.headers_frames(theirs, blk(rng.choice([REQ, POST])), end_stream=rng.random() < 0.3))
+                    known.append(theirs)
+                    theirs += 2
+            elif r < 0.28 and known:
+                sid = rng.choice(known)
+                if client:
+                    recv(wire.headers_frames(sid, blk(rng.choice([RESP, RESP, INFO])), end_stream=rng.random() < 0.4))
+                else:
+                    ops.append({'op': 'send_headers', 'c': 0, 'sid': sid, 'headers': rng.choice([RESP, RESP, INFO]), 'es': rng.random() < 0.4})
+            elif r < 0.36 and known:
+                sid = rng.choice(known)
+                ops.append({'op': 'send_data', 'c': 0, 'sid': sid, 'data': b'x' * rng.choice([0, 1, 100, 1000, 16384]), 'es': rng.random() < 0.3})
+            elif r < 0.42 and known:
+                recv(wire.data_frame(rng.choice(known), b'y' * rng.choice([0, 1, 500]), rng.random() < 0.4, None))
+            elif r < 0.5 and known:
+                sid = rng.choice(known)
+                if rng.random() < 0.5:
+                    ops.append({'op': 'reset_stream', 'c': 0, 'sid': sid, 'code': 8})
+                else:
+                    recv(wire.rst_stream(sid, rng.choice([0, 2, 8])))
+            elif r < 0.68:
+                # the peer changes its settings; lowered windows / frame sizes are what the calls must survive
+                kv = rng.choice([(4, 0), (4, 0), (4, 1), (4, 500), (4, 65535), (4, 2**31 - 1), (5, 16384), (5, 32768), (5, 65536),
+                                 (5, 2**24 - 1), (3, 0), (3, 1), (3, 100), (2, 0), (2, 1), (1, 0), (1, 4096), (6, 10), (6, 100000)])
+                recv(wire.settings_frame([kv]))
+            elif r < 0.74 and not client and known:
+                parent = rng.choice(known)
+                ops.append({'op': 'push_stream', 'c': 0, 'sid': parent, 'promised': mine, 'headers': REQ})
+                known.append(mine)
+                mine += 2
+            elif r < 0.8 and client and known:
+                recv(wire.push_promise_frames(rng.choice(known), theirs, blk(REQ)))
+                known.append(theirs)
+                theirs += 2
+            elif r < 0.86:
+                ops.append({'op': 'q', 'c': 0, 'what': rng.choice(['open_in', 'open_out'])})   # forgets closed streams
+            elif r < 0.9:
+                ops.append({'op': 'update_settings', 'c': 0, 'settings': [rng.choice([(4, 0), (4, 100), (5, 20000), (3, 1), (1, 0), (6, 50)])]})
+                if rng.random() < 0.7:
+                    recv(wire.settings_frame(ack=True))
+            elif r < 0.93:
+                recv(wire.window_update(rng.choice([0] + known), rng.choice([1, 1000, 2**31 - 1])))
+            elif r < 0.95:
+                recv(wire.goaway(rng.choice([0, 1, 3, 2**31 - 1]), rng.choice([0, 1, 2])))
+            elif r < 0.97:
+                ops.append({'op': 'close_connection', 'c': 0, 'code': 0, 'extra': None, 'last': None})
+            elif r < 0.985:
+                recv(wire.data_frame(0, b'zz', False, None))      # connection error
+            else:
+                ops.append({'op': 'data_to_send', 'c': 0, 'amount': None})
+        # the probes
+        never = [mine, mine + 2, theirs, theirs + 40, 2**31 - 1, 2**31 - 2]
+        odd = [0, -1, 2**31, 2**31 + 1, 2**62]
+        def some_sid():
+            r = rng.random()
+            if known and r < 0.6:
+                return rng.choice(known)
+            if r < 0.85:
+                return rng.choice(never)
+            return rng.choice(odd)
+        bigval = b'v' * big
+        for _ in range(rng.randrange(2, 7)):
+            r = rng.randrange(16)
+            sid = some_sid()
+            if recipe and known and rng.random() < 0.45:
+                # streams that outlived the peer's settings change: header blocks and data at the (old and new) limits
+                r = rng.choice([0, 0, 1])
+                sid = rng.choice(pushed if pushed and rng.random() < 0.5 else known)
+                if r == 0 and rng.random() < 0.7:
+                    hs = (TRAIL if client else rng.choice([RESP, RESP, TRAIL])) + ([(b'x-big', bigval, False)] if rng.random() < 0.7 else [])
+                    ops.append({'op': 'send_headers', 'c': 0, 'sid': sid, 'headers': hs, 'es': rng.random() < 0.5})
+                    kinds['send_headers'] = kinds.get('send_headers', 0) + 1
+                    continue
+            if r == 0:
+                hs = rng.choice([REQ, POST, RESP, INFO, TRAIL, [], RESP + [(b'x-big', bigval, False)], REQ + [(b'x-big', bigval, rng.random() < 0.5)],
+                                 [(b'X-Upper', b'1', False)], REQ[:2], RESP + RESP, [(b':status', b'abc', False)]])
+                prio = rng.random() < 0.3
+                ops.append({'op': 'send_headers', 'c': 0, 'sid': sid, 'headers': hs, 'es': rng.random() < 0.5,
+                            'pw': rng.choice([1, 256, 0, 257]) if prio else None,
+                            'pd': rng.choice([0, sid, 3, 2**31 - 1, 2**31, -1]) if prio and rng.random() < 0.7 else None,
+                            'pe': rng.random() < 0.5 if prio and rng.random() < 0.5 else None})
+            elif r == 1:
+                ops.append({'op': 'send_data', 'c': 0, 'sid': sid, 'data': b'd' * rng.choice([0, 0, 1, 10, 16384, 16385, 70000]),
+                            'es': rng.random() < 0.4, 'pad': rng.choice([None, None, None, 0, 1, 255, 256, -1])})
+            elif r == 2:
+                ops.append({'op': 'end_stream', 'c': 0, 'sid': sid})
+            elif r == 3:
+                ops.append({'op': 'incr_window', 'c': 0, 'incr': rng.choice([1, 100, 2**31 - 1, 2**31, 0, -5]), 'sid': rng.choice([None, sid, sid])})
+            elif r == 4:
+                ops.append({'op': 'push_stream', 'c': 0, 'sid': sid, 'promised': rng.choice(never + odd + known[:1]),
+                            'headers': rng.choice([REQ, REQ + [(b'x-big', bigval, False)], RESP, []])})
+            elif r == 5:
+                ops.append({'op': 'ping', 'c': 0, 'data': b'p' * rng.choice([8, 8, 0, 7, 9])})
+            elif r == 6:
+                ops.append({'op': 'reset_stream', 'c': 0, 'sid': sid, 'code': rng.choice([0, 8, 2**32 - 1, 2**32, -1])})
+            elif r == 7:
+                ops.append({'op': 'close_connection', 'c': 0, 'code': rng.choice([0, 1, 2**32 - 1, 2**32, -1]),
+                            'extra': rng.choice([None, b'', b'bye', b'e' * 16376, b'e' * 16377, b'e' * 70000]),
+                            'last': rng.choice([None, None, 0, 1, 2**31 - 1, 2**31, -1])})
+            elif r == 8:
+                ops.append({'op': 'update_settings', 'c': 0, 'settings': rng.choice([
+                    [], [(4, 0)], [(4, 2**31 - 1)], [(4, 2**31)], [(5, 16383)], [(5, 16384)], [(5, 2**24)], [(2, 2)], [(2, 0)], [(3, 2**32)],
+                    [(3, 2**32 - 1)], [(1, 2**32 - 1)], [(1, -1)], [(6, 0)], [(8, 1)], [(8, 2)], [(0x99, 5)], [(0x99, 2**32)], [(0x10000, 1)],
+                    [(4, 10), (5, 1)], [(1, 0), (4, 4096)], [(i + 0x20, i) for i in range(2731)]])})
+            elif r == 9:
+                ops.append({'op': 'altsvc', 'c': 0, 'field': rng.choice([b'h2=":443"', b'', b'f' * 16384, b'f' * 70000]),
+                            'origin': rng.choice([None, None, b'example.com', b'', b'o' * 65535, b'o' * 65536, b'o' * 16380]),
+                            'sid': rng.choice([None, None, sid])})
+            elif r == 10:
+                ops.append({'op': 'prioritize', 'c': 0, 'sid': sid, 'pw': rng.choice([None, 1, 256, 0, 257, -1]),
+                            'pd': rng.choice([None, 0, sid, 5, 2**31 - 1, 2**31, -1]), 'pe': rng.choice([None, True, False])})
+            elif r == 11:
+                ops.append({'op': 'ack_data', 'c': 0, 'size': rng.choice([0, 1, 500, 65535, 2**31, -1]), 'sid': sid})
+            elif r == 12:
+                ops.append({'op': 'q', 'c': 0, 'what': rng.choice(['local_window', 'remote_window']), 'sid': sid})
+            elif r == 13:
+                ops.append({'op': 'q', 'c': 0, 'what': rng.choice(['next_stream_id', 'open_in', 'open_out', 'inbound_window'])})
+            elif r == 14:
+                ops.append({'op': 'data_to_send', 'c': 0, 'amount': rng.choice([None, 0, 1, 9, -1, 10**6])})
+            else:
+                ops.append({'op': rng.choice(['initiate_connection', 'clear_out'])})
+                ops[-1]['c'] = 0
+            kinds[ops[-1]['op']] = kinds.get(ops[-1]['op'], 0) + 1
+        _judge('C29', ops, 'zoo-%d' % k, seed, model, oracle_C29, fails, mism)
+        progs += 1
+        nops += len(ops)
+    return {'failures': fails, 'mismatches': mism,
+            'coverage': {'state_zoo_programs': progs, 'state_zoo_ops': nops, 'state_zoo_probe_calls': kinds}}
